@@ -54,7 +54,7 @@ Inductive lrule :=
 | LRInfty
 | LRNaN
 | LRBoolAtom
-| LRSymbol                               (* inputs first, then the CSE replacement symbols *)
+| LRSymbol (map_first : bool)            (* map_first: the CSE replacement symbols are searched before the inputs *)
 | LRConstant                             (* set_double(eval_double(x)) *)
 | LRPass                                 (* UnevaluatedExpr *)
 | LRRewrite (t : fterm)
